@@ -1147,12 +1147,16 @@ def run_alias(case):
   spec, cfg = SPECS[case['metric']], case['cfg']
   accs, out = [], []
   for op in case['prog']:
-    if op['op'] == 'make':
-      accs.append(spec.make(cfg))
-    elif op['op'] == 'add':
-      accs[op['acc']].add(*spec.args(cfg, op['batch']))
-    elif op['op'] == 'merge':
-      accs[op['acc']].merge(accs[op['other']])
+    try:
+      if op['op'] == 'make':
+        accs.append(spec.make(cfg))
+      elif op['op'] == 'add':
+        accs[op['acc']].add(*spec.args(cfg, op['batch']))
+      elif op['op'] == 'merge':
+        accs[op['acc']].merge(accs[op['other']])
+    except Exception as e:  # pylint: disable=broad-except
+      out.append({'err': err_kind(e)})
+      break
     cs = [containers(case['metric'], a) for a in accs]
     out.append([[i, j] for i in range(len(accs)) for j in range(i + 1, len(accs))
                 if any(same_object(x, y) for x in cs[i] for y in cs[j])])
@@ -1328,7 +1332,9 @@ class C11:
   def oracle(case, obs):
     spec, cfg = SPECS[case['metric']], case['cfg']
     if case['kind'] == 'alias':
-      return None     # identity is compared with the model; the property-level check is the "frame" kind
+      bad = [x for x in obs['shares'] if isinstance(x, dict)]
+      # identity is compared with the model; the property-level check is the "frame" kind
+      return f'an operation raised: {bad}' if bad else None
     if case['kind'] == 'laws':
       fin = {k: C11._final(v) for k, v in obs.items()}
       bad = {k: v for k, v in fin.items() if isinstance(v, dict) and 'err' in v}
